@@ -443,6 +443,19 @@ func GuardF49(d *document.Document, s Step) (Step, string) {
 		if parent == nil || parent.RemovedAt() != nil {
 			return Step{}, "F49"
 		}
+		// variant c: the reverse of an array delete is an Add anchored on the
+		// element that preceded the deleted one at delete time; when a peer has
+		// removed that element meanwhile (the undoer knows the tombstone, or has
+		// purged it) the undo still pushes the Add, and a replica that has purged
+		// the anchor fails 'insertAfter ...: child not found' for ever
+		if add, ok := h.Op.(*operations.Add); ok {
+			prev := add.PrevCreatedAt()
+			if prev != nil && prev.Compare(time.InitialTicket) != 0 && prev.Compare(h.Op.ParentCreatedAt()) != 0 {
+				if anchor := root.FindByCreatedAt(prev); anchor == nil || anchor.RemovedAt() != nil {
+					return Step{}, "F49"
+				}
+			}
+		}
 	}
 	return s, ""
 }
